@@ -515,9 +515,9 @@ func oracle(ops, outs []string) *corr.Violation {
 		case o.replayDiff == "output":
 			return mk(o.sigTag()+"-error-depends-on-map-order", fmt.Sprintf("%q executed twice on the same prior state: %s", o.op, o.replayDetail))
 		case o.validateErr != "":
-			return mk(o.tag+"-saved-invalid-config", fmt.Sprintf("%q succeeded and the stored configuration fails the contract's own validate: %s", o.op, o.validateErr))
+			return mk(o.tag+"-"+strings.Replace(o.kind, "taint", "update", 1)+"-saved-invalid-config", fmt.Sprintf("%q succeeded and the stored configuration fails the contract's own validate: %s", o.op, o.validateErr))
 		case len(o.newCost) > 0:
-			return mk("unknown-cost-key-accepted", fmt.Sprintf("%q succeeded and added cost entries for names that are not settings: %v", o.op, o.newCost))
+			return mk(o.tag+"-unknown-cost-key-accepted", fmt.Sprintf("%q succeeded and added cost entries for names that are not settings: %v", o.op, o.newCost))
 		}
 	}
 	return nil
